@@ -15,8 +15,9 @@
    instance, lower-cases names and accumulates rather than replaces is checked by the dump
    correspondence: interleaved builder histories on 2-3 policies, every table of every policy
    compared with the model after every call.
-   Missing: letter-case independence as a theorem (the model lower-cases names with the modelled
-   strings.ToLower; its idempotence on arbitrary Unicode is not proved). *)
+   Letter case (C17_letter_case): the builder looks at element, attribute, CSS property and scheme
+   names only through strings.ToLower; two calls whose names agree after lower-casing have exactly
+   the same effect on every policy (instance: HREF / A versus href / a). *)
 From Coq Require Import List NArith Bool.
 Import ListNotations.
 From Coq Require Import Permutation.
@@ -69,6 +70,15 @@ Section C17.
     apply (peq_sanitize I). apply core_eq_peq; assumption.
   Qed.
 
+  (* the letter case of names does not matter *)
+  Theorem C17_letter_case : forall (p : policy M U R) o1 o2, op_case_eq M U R o1 o2 -> apply dh p o1 = apply dh p o2.
+  Proof. intros p o1 o2. apply apply_case_eq. Qed.
+
+  Example C17_letter_case_example : forall p : policy M U R,
+    apply dh p (@OAllowAttrs M U R [B"HREF"; B"Title"] None false (@OnElements _ [B"A"])) =
+    apply dh p (@OAllowAttrs M U R [B"href"; B"title"] None false (@OnElements _ [B"a"])).
+  Proof. intros p. apply C17_letter_case. constructor; vm_compute; reflexivity. Qed.
+
   (* histories without element patterns satisfy the side condition *)
   Lemma C17_no_patterns_compat : forall l : list (prim M), (forall x, In x l -> prim_rid M x = None) -> all_compat M l.
   Proof. intros l H x y Hx Hy. unfold compat. rewrite (H x Hx). exact Logic.I. Qed.
@@ -100,3 +110,4 @@ Print Assumptions C17_rules_accumulate_partial.
 Print Assumptions C17_rule_lists.
 Print Assumptions C17_switch_last_setting.
 Print Assumptions C17_order_of_rule_calls.
+Print Assumptions C17_letter_case.
